@@ -810,6 +810,62 @@ func c02LoaderReuse(c *core.Ctx) {
 			}
 		}
 	}
+	// the SAME location loaded again by the same Loader after the file was repaired: the first attempt failed (not a document
+	// at all, or a reference to nothing), so there is nothing of it to hand out
+	k := kinds[0]
+	for _, broken := range []struct{ name, content string }{{"unparsable", "{ this is not a document"}, {"dangling-reference", string(mk(k.coll, k.bad))}, {"dangling-reference-in-library", string(mk(k.coll, gen.S{"$ref": "lib.json#/components/schemas/T"}))}} {
+		for _, entry := range []string{"LoadFromFile", "LoadFromDataWithPath"} {
+			desc := fmt.Sprintf("same location loaded again by the same Loader after a failed load (%s) via %s", broken.name, entry)
+			c.Begin(desc)
+			good := mk(k.coll, k.good)
+			files := map[string]string{"w/doc.json": broken.content, "w/lib.json": "{ broken as well"}
+			rd := &c02reader{files: files, limit: 100}
+			l := openapi3.NewLoader()
+			l.IsExternalRefsAllowed = true
+			l.ReadFromURIFunc = rd.fn()
+			load := func() (*openapi3.T, error) {
+				if entry == "LoadFromFile" {
+					return l.LoadFromFile("w/doc.json")
+				}
+				return l.LoadFromDataWithPath([]byte(files["w/doc.json"]), &url.URL{Path: "w/doc.json"})
+			}
+			var d *openapi3.T
+			var err1, err2 error
+			c.Eval()
+			pi := core.Guard(func() {
+				_, err1 = load()
+				files["w/doc.json"] = string(good)
+				d, err2 = load()
+			})
+			w := c02Witness{Entry: entry + " twice", Root: "w/doc.json", Files: map[string]string{"w/doc.json (first)": broken.content, "w/doc.json (then)": string(good)}}
+			if pi != nil {
+				c.Violate(core.PanicFeatures(pi), w, desc+"\n"+pi.Value)
+				continue
+			}
+			c.Distinct(desc)
+			c.Cover("loader_reuse", "same-location-after-"+broken.name)
+			feat := func(kind string) map[string]string {
+				return map[string]string{"kind": kind, "shape": "same-location-reloaded-after-failed-load", "position": "components.schemas.A", "entry": entry, "first": broken.name}
+			}
+			if err1 == nil {
+				c.Cover("loader_reuse", "first-load-did-not-fail (no verdict)")
+				continue
+			}
+			if err2 != nil {
+				w.Got = err2.Error()
+				c.Violate(feat("valid_tree_fails_to_load"), w, desc+"\nsecond load: "+err2.Error())
+				continue
+			}
+			m, ok := "", false
+			if d != nil && d.Components != nil {
+				m, ok = k.marker(d)
+			}
+			w.Got, w.Want = m, "MARKGOOD"
+			if !ok || m != "MARKGOOD" {
+				c.Violate(feat("stale_document_after_failed_load"), w, fmt.Sprintf("%s\nthe second load returned no error and a document in which components.schemas.A resolves to %q (found=%v): what the failed first load left behind", desc, m, ok))
+			}
+		}
+	}
 }
 
 // c02RemoteHosts: documents at the same path on different hosts (and differing in the query only) are different documents:
